@@ -43,7 +43,7 @@ fn layout(text: &str) -> Vec<Vec<Line>> {
     txns
 }
 
-fn copy_tree(from: &Path, to: &Path) {
+pub fn copy_tree(from: &Path, to: &Path) {
     let _ = std::fs::create_dir_all(to);
     if let Ok(rd) = std::fs::read_dir(from) {
         for e in rd.flatten() {
